@@ -12,6 +12,7 @@ var All = map[string]*fw.Prop{
 	"C06": C06,
 	"C08": C08,
 	"C09": C09,
+	"C11": C11,
 	"C12": C12,
 	"C13": C13,
 	"C14": C14,
